@@ -161,6 +161,8 @@ type TB struct {
 	wideU  map[*Term][]*Term
 	wideS  map[*Term][]*Term
 	Rules  map[string]int // how often each rewrite rule fired
+	// Heavy, when set, is consulted for wide mul/div/rem nodes that no rule removed.
+	Heavy func(op Op, a, b *Term) *Term
 }
 
 func NewTB() *TB { return &TB{tab: map[tkey]*Term{}, consts: map[[2]uint64]*Term{}, nextID: 1,
